@@ -99,6 +99,7 @@ struct ClientCx {
     id: u32,
     slots: Vec<Ent>,
     mail: Mail,
+    joins: std::collections::VecDeque<hannibal::spawner::JoinFuture<P>>,
 }
 impl ClientCx {
     fn ent(&mut self, s: Slot) -> &mut Ent {
@@ -127,7 +128,9 @@ fn mk_msg(id: u64, work: &[Work]) -> Msg {
     Msg { id, work: Arc::new(work.to_vec()) }
 }
 fn mk_ask(id: u64, work: &[Work]) -> Ask {
-    Ask { id, nonce: next_nonce(), work: Arc::new(work.to_vec()) }
+    let nonce = next_nonce();
+    log(Ev::Nonce { id, nonce });
+    Ask { id, nonce, work: Arc::new(work.to_vec()) }
 }
 
 // ------------------------------------------------------------------------------------------
@@ -394,6 +397,8 @@ fn resolve(cx: &mut ClientCx, op: &Op) -> (Option<HKind>, Option<ActorIdx>) {
         | Op::Consume { h }
         | Op::ConsumeSync { h }
         | Op::Detach { h, .. }
+        | Op::DropThenJoin { h }
+        | Op::JoinStart { h }
         | Op::Clone { h, .. }
         | Op::Downgrade { h, .. }
         | Op::Upgrade { h, .. }
@@ -549,6 +554,27 @@ async fn exec(cx: &mut ClientCx, op: &Op) -> Res {
                 Err(e) => Res::Err(e.into()),
             }
         }
+        Op::DropThenJoin { h } => {
+            if !matches!(cx.ent(*h).h, H::Owning(_)) {
+                return Res::Skipped;
+            }
+            let H::Owning(mut o) = cx.take(*h).h else { unreachable!() };
+            let f = o.join();
+            drop(o);
+            Res::Joined(f.await.map(|p| p.join_val()))
+        }
+        Op::JoinStart { h } => match &mut cx.ent(*h).h {
+            H::Owning(o) => {
+                let f = o.join();
+                cx.joins.push_back(f);
+                Res::Ok
+            }
+            _ => Res::Skipped,
+        },
+        Op::JoinFinish => match cx.joins.pop_front() {
+            Some(f) => Res::Joined(f.await.map(|p| p.join_val())),
+            None => Res::Skipped,
+        },
         Op::Detach { h, to } => {
             if !matches!(cx.ent(*h).h, H::Owning(_)) {
                 return Res::Skipped;
@@ -841,7 +867,7 @@ async fn exec(cx: &mut ClientCx, op: &Op) -> Res {
 }
 
 async fn client_main(id: u32, ops: Vec<Op>, mail: Mail) {
-    let mut cx = ClientCx { id, slots: Vec::new(), mail };
+    let mut cx = ClientCx { id, slots: Vec::new(), mail, joins: Default::default() };
     for (idx, op) in ops.iter().enumerate() {
         let (hk, target) = resolve(&mut cx, op);
         log(Ev::OpBegin { client: id, idx: idx as u32, op: op.clone(), hk, target });
